@@ -51,8 +51,9 @@ pub fn replay(cases_path: &str, out: &str) {
             nontrivial += 1;
         }
         // one reused object per float type for the whole history; plus a fresh object for every call
-        let mut f64_obj: FFT<f64> = FFT::new();
-        let mut f32_obj: FFT<f32> = FFT::new();
+        // (every second history on objects obtained through Default, the other public way to make one)
+        let mut f64_obj: FFT<f64> = if v.cases % 2 == 0 { FFT::new() } else { FFT::default() };
+        let mut f32_obj: FFT<f32> = if v.cases % 2 == 0 { FFT::new() } else { FFT::default() };
         for (k, c) in hist.iter().enumerate() {
             let kind = gets(c, "kind");
             let (a, b) = (ints(&c["a"]), ints(&c["b"]));
@@ -64,6 +65,8 @@ pub fn replay(cases_path: &str, out: &str) {
                 ("f32 reused", catch(|| run_call!(f32_obj, kind, &a, &b, dst, n))),
                 ("f64 fresh", catch(|| { let mut o: FFT<f64> = FFT::new(); run_call!(o, kind, &a, &b, dst, n) })),
                 ("f32 fresh", catch(|| { let mut o: FFT<f32> = FFT::new(); run_call!(o, kind, &a, &b, dst, n) })),
+                ("f64 fresh default", catch(|| { let mut o: FFT<f64> = FFT::default(); run_call!(o, kind, &a, &b, dst, n) })),
+                ("f32 fresh default", catch(|| { let mut o: FFT<f32> = Default::default(); run_call!(o, kind, &a, &b, dst, n) })),
             ];
             for (who, r) in results {
                 v.checks += 1;
